@@ -16,7 +16,7 @@ var (
 	litLeaf   = []string{"a", "b", "c", "d", "e", "f", "g", "ab", "abc", "ac", "author", "new", "me", "log", "posts", "emails", "profile", "h.html", "m-n", "caf\u00e9", "\u65e5\u672c"}
 	tok1      = []string{`{v:min5}`, `{k:qx|zw}`, `{-k:qx|zw}`, `{id}`, `{idx}`, `{name}`, `{-ign}`, `{id:\d+}`, `{uid:\d+}`, `{w:[a-z]+}`, `{id:digit}`, `{w:word}`, `{x:any}`, `{-n:\d+}`, `{-g:digit}`, `{n:[a-z]+}`}
 	tok2      = []string{`{-alt:qx|zw}`, `{action}`, `{page:\d+}`, `{page:digit}`, `{path}`, `{-skip}`, `{sub:[a-z]+}`, `{act:word}`, `{pg:\d*}`, `{actn}`}
-	tails     = []string{"", "", "/", "/log", "/posts", ".html", "-x", "/a", "/ab", "/ac", "/author", "/emails", "_m", "/log/", ".htm"}
+	tails     = []string{"", "", "/", "/log", "/posts", ".html", "-x", "/a", "/ab", "/ac", "/author", "/emails", "_m", "/log/", ".htm", ":m"}
 	seps      = []string{"/", "-", ".", "_", "/p/", "/log/"}
 	allICs    = []string{"digit", "word", "any", "min5"}
 )
